@@ -80,7 +80,7 @@ func trueEdgesOfCall(fn *ssa.Function, names ...string) (edges []edge, calls []*
 }
 
 func checkC04(c *Ctx, r *Report) {
-	r.Explain = "Acceptance of replies inside a session, as must-pass-through facts: (1) in the in-session send closure every path on which the decoded completion code is classified has tested the decoded session layer's Authenticated flag true and compared its session ID equal with the session's LocalID; (2) in ipmi.V2Session.DecodeFromBytes every success exit is behind either the unauthenticated arm or the true arm of a constant-time comparison between the received signature (the tail of the input from the split point) and the integrity hash of exactly the input up to the same split point, neither operand re-sliced; (3) in ipmi.AES128CBC.DecodeFromBytes the success exit is behind the pad-length bound and a loop comparing every pad byte with a counter, mismatch leading to an error; (4) decode errors and a wrong innermost layer make the closure return non-nil. Decides the presence of the checks on all paths; equality of HMAC values is the trusted primitive's."
+	r.Explain = "Acceptance of replies inside a session, as must-pass-through facts: (1) in the in-session send closure every path on which the decoded completion code is classified has tested the decoded session layer's Authenticated flag true and compared its session ID equal with the session's LocalID; (2) in ipmi.V2Session.DecodeFromBytes every success exit is behind either the unauthenticated arm or the true arm of a constant-time comparison between the received signature (the tail of the input from the split point) and the integrity hash of exactly the input up to the same split point, neither operand re-sliced; (3) in ipmi.AES128CBC.DecodeFromBytes every success path has bounded the pad length P (the last byte) by the block size and, on engine E2's comparison events, compared the P bytes before it with 1,2,…,P on every iteration of a loop that ends exactly at the pad-length byte, and no success path has an unequal comparison; (4) decode errors and a wrong innermost layer make the closure return non-nil. Decides the presence of the checks on all paths; equality of HMAC values is the trusted primitive's."
 	r.NotDecided = []string{"value-level: that a flipped bit changes the HMAC (property of HMAC, trusted)", "replay protection by BMC-to-console sequence numbers (not implemented by the library and not part of the property)"}
 	r.Trusted = []string{"go/types, go/ssa (x/tools v0.29.0)", "crypto/hmac.Equal and crypto/subtle.ConstantTimeCompare compare whole slices", "hash.Hash semantics"}
 
